@@ -1,0 +1,62 @@
+package accesscontroller
+
+import (
+	"bytes"
+	"encoding/hex"
+	"fmt"
+
+	logac "berty.tech/go-ipfs-log/accesscontroller"
+	"github.com/libp2p/go-libp2p/core/crypto"
+)
+
+// VerifyEntryAuthor checks that an entry was written by the identity it names:
+// the entry must be signed with that identity's key and, for "orbitdb"
+// identities, the identity block must be consistent (its key signed its id,
+// and the key the id stands for signed that key). Naming a writer's id in an
+// entry signed by someone else is therefore not enough to be that writer.
+func VerifyEntryAuthor(e logac.LogEntry) error {
+	identity := e.GetIdentity()
+	if identity == nil {
+		return fmt.Errorf("entry has no identity")
+	}
+
+	if keyed, ok := e.(interface{ GetKey() []byte }); ok {
+		if !bytes.Equal(keyed.GetKey(), identity.PublicKey) {
+			return fmt.Errorf("entry is not signed with the key of its identity")
+		}
+	}
+
+	if identity.Type != "orbitdb" {
+		return nil
+	}
+
+	if identity.Signatures == nil {
+		return fmt.Errorf("identity is not signed")
+	}
+
+	pubKey, err := crypto.UnmarshalSecp256k1PublicKey(identity.PublicKey)
+	if err != nil {
+		return fmt.Errorf("unable to parse identity public key: %w", err)
+	}
+
+	if ok, err := pubKey.Verify([]byte(identity.ID), identity.Signatures.ID); err != nil || !ok {
+		return fmt.Errorf("identity id is not signed by the identity key")
+	}
+
+	idBytes, err := hex.DecodeString(identity.ID)
+	if err != nil {
+		return fmt.Errorf("unable to decode identity id: %w", err)
+	}
+
+	idKey, err := crypto.UnmarshalSecp256k1PublicKey(idBytes)
+	if err != nil {
+		return fmt.Errorf("unable to parse identity id as a key: %w", err)
+	}
+
+	signed := append(append([]byte{}, identity.PublicKey...), identity.Signatures.ID...)
+	if ok, err := idKey.Verify([]byte(hex.EncodeToString(signed)), identity.Signatures.PublicKey); err != nil || !ok {
+		return fmt.Errorf("identity key is not signed by the key of the identity id")
+	}
+
+	return nil
+}
